@@ -322,6 +322,17 @@ def run(ctx):
           "b": "let store = 0;\npub fn put(store: int) { println(\"put\", store); }\npub fn read() -> int { store }\nfn main() { }"},
          "put 3\n4\n0\nput 4\n5\n0\n"),
     ]
+    # a singleton extracted by an imported function is the singleton of the DEFINING module; function literals crossing the
+    # module border in both directions run against the module that created them, named functions against their own
+    scoped += [
+        ({"main": "import { dim, level } from dev;\nfn main() { let a = dim(20); println(a, level()); let b = dim(5); println(b + level()); }",
+          "dev": "$Lamp = { lvl: int };\npub fn dim(lamp: $Lamp, p: int) -> int { lamp.lvl = p; lamp.lvl }\npub fn level(lamp: $Lamp) -> int { lamp.lvl }\nfn main() { }"},
+         "20 20\n10\n"),
+        ({"main": "import { twice, next, make } from lib;\nlet counter = 100;\nfn own() -> int { counter }\nfn main() { println(twice(fn() -> int { next() })); println(counter); println(next()); let add = make(); println(add(own)); counter = 2; println(add(own)); }",
+          "lib": "let cnt = 0;\nlet base = 10;\npub fn next() -> int { cnt += 1; cnt }\npub fn twice(f: fn() -> int) -> int { f() + f() }\n"
+                 "pub fn make() -> fn(cb: fn() -> int) -> int { fn(cb: fn() -> int) -> int { cb() + base } }\nfn main() { }"},
+         "3\n100\n3\n110\n12\n"),
+    ]
     for mods, want in scoped:
         ctx.count(case_key=mods, nontrivial=True)
         if witness_fails(mods, want, reps=3):
